@@ -11,6 +11,7 @@ import (
 	"go.flow.arcalot.io/engine/internal/verif/vcase"
 	"go.flow.arcalot.io/engine/internal/verif/vplug"
 	"go.flow.arcalot.io/engine/internal/verif/vrun"
+	"go.flow.arcalot.io/engine/internal/verif/vsched"
 	"pgregory.net/rapid"
 )
 
@@ -20,6 +21,8 @@ type MultiCase struct {
 	Rounds [][]vrun.RunSpec `json:"rounds"`
 	// RunScripts: run id -> outcome overrides by original key
 	RePrepare bool `json:"re_prepare"`
+	// Plan: schedule points held while the runs overlap (evaluation of one run stretched across another)
+	Plan vsched.Plan `json:"plan,omitempty"`
 }
 
 func genMultiCase(rt *rapid.T) *MultiCase {
@@ -33,6 +36,25 @@ func genMultiCase(rt *rapid.T) *MultiCase {
 	// anything behind in the prepared workflow
 	p.Faults = true
 	c := vcase.GenCase(rt, p, "C14")
+	oneofMotif := rapid.IntRange(0, 5).Draw(rt, "oneof-motif?") == 0
+	if oneofMotif {
+		// overlapping runs whose one-of resolves through different alternatives: in some runs `ma`
+		// succeeds early (alternative oa), in the others it fails and `mb` succeeds (alternative ob)
+		mk := func(id string) *vcase.Step {
+			return &vcase.Step{ID: id, Kind: "plugin", Op: "op", Input: vcase.MapVal([]string{"key"}, []*vcase.Val{vcase.LitVal(vcase.StrLit(id))})}
+		}
+		src := func(id string) *vcase.Val {
+			return vcase.ExprVal(&vcase.Expr{K: "out", Step: id, Stage: "outputs", Output: "success"})
+		}
+		mc3 := mk("mc")
+		mc3.Input.Set("any", &vcase.Val{K: "oneof", Disc: "d", Keys: []string{"oa", "ob"}, Vals: []*vcase.Val{src("ma"), src("mb")}})
+		c = &vcase.Case{Prop: "C14", Profile: "motif:oneof-resolved-differently-in-overlapping-runs", Subs: map[string]*vcase.Program{},
+			InputDoc: map[string]any{}, Labels: []string{"motif:oneof-resolved-differently-in-overlapping-runs"},
+			Main: &vcase.Program{Steps: []*vcase.Step{mk("ma"), mk("mb"), mc3},
+				Outputs: []*vcase.Output{{ID: "success", Val: vcase.MapVal([]string{"r"}, []*vcase.Val{vcase.ExprVal(&vcase.Expr{K: "out", Step: "mc", Stage: "outputs", Output: "success", Path: []string{"s"}})})}}}}
+		c.Script.Steps = map[string]vplug.Behaviour{"ma": {Outcome: "success"}, "mb": {Outcome: "success"}, "mc": {Outcome: "success"}}
+		c.Script.Deploys = map[string]vplug.DeployBehaviour{}
+	}
 	// in a quarter of the cases the first output carries a field that evaluates for some inputs only
 	if _, hasI := c.InputDoc["i"]; hasI && len(c.Main.Outputs) > 0 && c.Main.Outputs[0].Val.K == "map" && rapid.IntRange(0, 3).Draw(rt, "output-fault-motif?") == 0 {
 		c.Main.Outputs[0].Val.Set("zdiv", vcase.ExprVal(&vcase.Expr{K: "bin", Op: "/", Args: []*vcase.Expr{{K: "lit", Lit: vcase.IntLit(100)}, {K: "in", Field: "i"}}}))
@@ -104,9 +126,43 @@ func genMultiCase(rt *rapid.T) *MultiCase {
 				b.DelayMs = rapid.IntRange(0, 15).Draw(rt, id+"."+key+".delay")
 				c.Script.Steps[id+"/"+key] = b
 			}
+			if oneofMotif {
+				spec.CancelAfterMs = 0
+				if rapid.Bool().Draw(rt, id+".via-ob") {
+					c.Script.Steps[id+"/ma"] = vplug.Behaviour{Outcome: "error", DelayMs: rapid.IntRange(0, 5).Draw(rt, id+".ma.delay")}
+					c.Script.Steps[id+"/mb"] = vplug.Behaviour{Outcome: "success", DelayMs: rapid.IntRange(5, 25).Draw(rt, id+".mb.delay")}
+				} else {
+					c.Script.Steps[id+"/ma"] = vplug.Behaviour{Outcome: "success", DelayMs: rapid.IntRange(0, 5).Draw(rt, id+".ma.delay")}
+					c.Script.Steps[id+"/mb"] = vplug.Behaviour{Outcome: "success", DelayMs: rapid.IntRange(60, 90).Draw(rt, id+".mb.delay")}
+				}
+				c.Script.Steps[id+"/mc"] = vplug.Behaviour{Outcome: "success"}
+			}
 			round = append(round, spec)
 		}
 		mc.Rounds = append(mc.Rounds, round)
+	}
+	// a third of the histories stretches a schedule point: half of the time one where a run evaluates
+	// its expressions (so that another run's evaluation falls into the middle of it)
+	if sites := planSites(); len(sites) > 0 && (oneofMotif || rapid.IntRange(0, 2).Draw(rt, "plan?") == 0) {
+		var eval []string
+		for _, s := range sites {
+			if strings.Contains(s, "loopState.resolve") || strings.Contains(s, "loopState.notifySteps") {
+				eval = append(eval, s)
+			}
+		}
+		mc.Plan = vsched.Plan{}
+		if oneofMotif {
+			// stretch every evaluation a little: another run's choice falls into the middle of this run's
+			mc.Plan["workflow/workflow.go:loopState.resolveExpressions#0:entry"] = vsched.SitePlan{DelayMs: rapid.IntRange(3, 10).Draw(rt, "plan.oneof.ms")}
+		}
+		for i, n := 0, rapid.IntRange(1, 2).Draw(rt, "plan.n"); i < n; i++ {
+			pool := sites
+			if len(eval) > 0 && rapid.Bool().Draw(rt, fmt.Sprintf("plan.eval%d", i)) {
+				pool = eval
+			}
+			site := pool[rapid.IntRange(0, len(pool)-1).Draw(rt, fmt.Sprintf("plan.site%d", i))]
+			mc.Plan[site] = vsched.SitePlan{DelayMs: rapid.IntRange(3, 20).Draw(rt, fmt.Sprintf("plan.ms%d", i)), First: rapid.IntRange(0, 4).Draw(rt, fmt.Sprintf("plan.first%d", i))}
+		}
 	}
 	return mc
 }
@@ -123,7 +179,7 @@ func filterLog(ans *vrun.MultiAnswer, rk string) *vrun.Answer {
 
 func checkMultiCase(st *Stats, mc *MultiCase) string {
 	c := mc.Base
-	req := &vrun.MultiRequest{Main: vcase.RenderYAML(c.Main), Files: map[string]string{}, Script: c.Script, Rounds: mc.Rounds, RePrepareBetween: mc.RePrepare, WatchdogMs: 40000}
+	req := &vrun.MultiRequest{Main: vcase.RenderYAML(c.Main), Files: map[string]string{}, Script: c.Script, Rounds: mc.Rounds, RePrepareBetween: mc.RePrepare, WatchdogMs: 40000, Plan: mc.Plan}
 	for name, p := range c.Subs {
 		req.Files[name] = vcase.RenderYAML(p)
 	}
